@@ -22,7 +22,7 @@ STUBS = ["the copy call itself runs natively on realised state (pickle's identit
 OUTSIDE = ["values outside [-2,2]", "async references", "class-level watchers"]
 ASSUMPTIONS = ["values in [-2,2] realised before the copy boundary"]
 N_PRE = 5
-N_POST = 10
+N_POST = 11
 
 
 class Sub(param.Parameterized):
@@ -62,6 +62,9 @@ class P(param.Parameterized):
     def _note(self, tag, event):
         self.notes = getattr(self, 'notes', []) + [(tag, event.new)]
 
+    def _note_y(self, event):
+        self.ynotes = getattr(self, 'ynotes', []) + [event.new]
+
 
 class PS(P):
     @param.depends('x', 'sub.v', watch=True)
@@ -86,6 +89,8 @@ def prog(subdep: bool, mech: int, helper: bool, pre1: int, pv1: int, post1: int,
             p.helper = h
             # a watcher that is a functools.partial of one of the object's own methods
             p.param.watch(functools.partial(p._note, 'tag'), 'x')
+            # the handle of a watcher kept in an ordinary attribute: on the copy it must still designate the copy's watcher
+            p._hw = p.param.watch(p._note_y, 'y')
     if pre1 == 0:
         p.x = pv1
     elif pre1 == 1:
@@ -177,6 +182,19 @@ def prog(subdep: bool, mech: int, helper: bool, pre1: int, pv1: int, post1: int,
             me.param.update(x=me.x + 1, y=me.y + 1)
             check('C17.multi_dep_once', me.n2 == k2 + 1 and other.n2 == ko, dict(inf, calls=me.n2 - k2))
             snap = (other.x, list(other.l), other.param.x.bounds, other.n, other.sub.v, other.r)
+        elif o == 10:
+            assume(helper)
+            yo = list(getattr(other, 'ynotes', []))
+            me.y = me.y + 1
+            ym = list(getattr(me, 'ynotes', []))
+            check('C17.foreign_watcher_kept', ym[-1:] == [me.y] and getattr(other, 'ynotes', []) == yo, dict(inf, handle=True, before_unwatch=True))
+            me.param.unwatch(me._hw)          # the stored handle removes this side's watcher ...
+            me.y = me.y + 1
+            check('C17.foreign_watcher_kept', getattr(me, 'ynotes', []) == ym, dict(inf, handle=True, after_unwatch=True))
+            other.y = other.y + 1             # ... and only this side's
+            check('C17.foreign_watcher_kept', getattr(other, 'ynotes', []) == yo + [other.y], dict(inf, handle=True, other_side=True))
+            me._hw = me.param.watch(me._note_y, 'y')
+            snap = (other.x, list(other.l), other.param.x.bounds, other.n, other.sub.v, other.r)
         elif o == 7:
             so = list(other.param.s.objects)
             sc = list(type(me).param.s.objects)
@@ -215,4 +233,4 @@ def shards(tier):
 def bounds(tier):
     return dict(pre_history=1, post_history=2, mechanisms=['copy.deepcopy', 'pickle protocol 2', 'pickle protocol 5'],
                 values='fixed (2, 1, -1)' if tier == 'quick' else '[-2,2]',
-                post_ops=['set x', 'append to l', 'edit x.bounds', 'set sub.v', 'link r to a source Parameter', 'set r plain', 'update the source', 'append to the per-instance Selector.objects', 'update(x, y) with a two-parameter dependent method', 'batch on one restored object while another is assigned'])
+                post_ops=['set x', 'append to l', 'edit x.bounds', 'set sub.v', 'link r to a source Parameter', 'set r plain', 'update the source', 'append to the per-instance Selector.objects', 'update(x, y) with a two-parameter dependent method', 'batch on one restored object while another is assigned', 'unwatch through a watcher handle kept in an ordinary attribute'])
